@@ -153,7 +153,7 @@ struct Exec {
         Sess &s = ss[(size_t) (op.s % plan.sessions)];
         Item it;
         static const unsigned char tags[5] = {0, 1, 2, 3, 2 | 3};
-        it.tag = tags[op.tag % 5];
+        it.tag = op.tag >= 256 ? (unsigned char) (op.tag - 256) : tags[op.tag % 5]; // >= 256: an application-defined tag byte ("any tags")
         content(it.m, op.mlen, mix64(0x3000 + (uint64_t) (op.s % plan.sessions), s.log.size()));
         content(it.ad, op.adlen, mix64(0x4000 + (uint64_t) (op.s % plan.sessions), s.log.size()));
         ref::StreamState before = s.model_push;
@@ -498,6 +498,7 @@ struct C09 {
                 op.kind = OP_PUSH;
                 unsigned t = (unsigned) ops.below(10);
                 op.tag = t < 5 ? 0 : t < 6 ? 1 : t < 8 ? 2 : t < 9 ? 3 : 4;
+                if (ops.chance(1, 6)) op.tag = 256 + (int) ops.below(256);
                 op.mlen = gen_len(ops, thorough);
                 op.adlen = ops.chance(1, 2) ? 0 : (uint32_t) ops.pick<uint32_t>({1, 3, 15, 16, 17, 32, 33, 64, 80});
                 op.null_outlen = ops.chance(1, 5);
